@@ -12,6 +12,7 @@ import (
 func init() {
 	vsRegister("C11.find_nodes_reply", vhC11FindNodesReply)
 	vsRegister("C11.verify_response", vhC11VerifyResponse)
+	vsRegister("C11.nodes_size_budget", vhC11NodesSizeBudget)
 }
 
 // FINDNODES reply: for a list of 0..D requested distances (values 0..65535, repeats allowed) and a
@@ -29,6 +30,7 @@ func vhC11FindNodesReply() {
 	vhEnrSizes = []int{1, 580}
 	selfID := enode.ID(vsArr32("self"))
 	self := vhAddTableNodeWithID(selfID) // tag 1 = the local record
+	vmSelfNode = self
 	tab := vhTable(self)
 	tab.cfg.NoFindnodeLivenessCheck = vsBool("no-liveness-check")
 	p := vhProto()
@@ -108,6 +110,48 @@ func vhC11FindNodesReply() {
 	}
 	if d > 0 && raw[0] > 256 {
 		vsCover("invalid-distance-ignored")
+	}
+}
+
+// The NODES size budget for EVERY vector of record sizes: 1..K live, relay-safe entries in the
+// requested bucket with records of any sizes 1..1200: the reply fits one packet, and when all
+// records fit together all are listed.
+//
+//verif:harness C11.nodes_size_budget unwind=60 timeout=60
+//verif:use tableenv
+//verif:param K=3/5
+func vhC11NodesSizeBudget() {
+	vhEnrBytes = map[*enr.Record][]byte{}
+	vhTableNodes = nil
+	self := vhNodeWithID(0, nil, enode.ID(vsArr32("self")))
+	vmSelfNode = self
+	tab := vhTable(self)
+	p := vhProto()
+	p.table = tab
+	p.localNode = new(enode.LocalNode)
+	b := tab.bucketAtDistance(256)
+	k := 1 + vsChoose("entries", vsParam("K"))
+	sum := 0
+	for i := 0; i < k; i++ {
+		n := vhAddTableNodeSymSize(enode.ID(vsArr32("id")), 1200)
+		vmNodes[n].ip = make(net.IP, 4)
+		vmNodes[n].relayOK = true
+		b.entries = append(b.entries, &tableNode{Node: n, isValidatedLive: true})
+		sum += 4 + len(vhEnrBytes[n.Record()])
+	}
+	reply, err := p.handleFindNodes(&net.UDPAddr{IP: net.IP{1, 2, 3, 4}}, &FindNodes{Distances: [][2]byte{{0, 1}}})
+	vsAssert(err == nil, "answered")
+	budget := maxPacketSize - talkRespOverhead
+	vsAssert(len(reply) <= budget, "reply-fits-one-packet")
+	vsAssert(len(reply) >= 6, "reply-has-the-fixed-part")
+	if 6+sum <= budget {
+		vsAssert(len(reply) == 6+sum, "all-records-listed-when-they-fit")
+		vsCover("all-fit")
+	} else {
+		vsCover("cut-by-size")
+	}
+	if len(reply) == budget {
+		vsCover("exactly-full")
 	}
 }
 
